@@ -5,7 +5,7 @@ from vlib import Broken
 
 LEVEL = "model_checking"
 RULE = ("For every ordered pair of the value pool (nil, booleans, int64 edges, floats incl. +-0/NaN/Inf/beyond 2^53, decimal-numeral and other strings, nested "
-        "slices and maps) the real VM evaluates a==b, a!=b, a in [b], switch a {case b:}, a<=b && a>=b in both operand orders; TLC (Trace_AnkoEq) accepts each "
+        "slices and maps) the real VM evaluates a==b, a!=b, a in [b], switch a {case b:}, a<=b && a>=b in both operand orders, once with the operands in variables and once read out of slices (interface-typed elements); TLC (Trace_AnkoEq) accepts each "
         "observation iff the laws hold (symmetry, != negation, in/switch coherence, int-float equality iff <= and >=) and the verdict equals AnkoEq's where the "
         "statement decides. distinct_nontrivial = pairs with a definite verdict.")
 
@@ -38,9 +38,9 @@ def M(*kv): return V("map", es=sorted([L(k, v) for k, v in kv], key=lambda p: js
 
 
 def pool(ctx):
-    ints = [0, 1, -1, 2, 7, 12, 100000, 1000000, 2**53, 2**53 + 1, 2**63 - 1, -2**63]
+    ints = [0, 1, -1, 2, 5, 7, 12, 16, 31, 100000, 1000000, 2**53, 2**53 + 1, 2**63 - 1, -2**63]
     floats = [0.0, -0.0, 0.5, 1.0, 1.5, 7.0, 12.0, 100000.0, 1000000.0, 1e21, 2.0**53, 9007199254740994.0, 9.223372036854775807e18, float("inf"), float("-inf"), float("nan")]
-    strs = ["", "a", "abc", "0", "1", "12", "1000000", "-7", "1.5", "0.5", "007", "12.0", "9223372036854775808", "1e5", "0x10", " 1", "true"]
+    strs = ["", "a", "abc", "0", "1", "12", "1000000", "-7", "1.5", "0.5", "007", "12.0", "9223372036854775808", "1e5", "0x10", "0X1F", "0b101", "-0x10", "010", " 1", "true"]
     vals = [NIL, B(True), B(False)] + [I(n) for n in ints] + [F(x) for x in floats] + [S(s) for s in strs]
     vals += [L(), L(I(1)), L(I(1), I(2)), L(I(2), I(1)), L(F(1.0)), L(S("a")), L(S("1")), L(L(I(1)), L(I(2))), L(L(I(1)), L(I(3))), L(NIL), L(L()),
              M(), M((S("a"), I(1))), M((S("a"), I(2))), M((S("b"), I(1))), M((S("a"), I(1)), (S("b"), L(I(1)))), M((S("a"), F(1.0))), M((I(1), S("x")))]
@@ -93,7 +93,7 @@ def run(ctx):
     for ln in rej[:25]:
         bad = todo[ln - 1]
         a, b = vals[bad["i"] - 1], vals[bad["j"] - 1]
-        vlib.violation(ctx, "equality observation rejected by AnkoEq for a=%s b=%s: %s" % (describe(a), describe(b), {k: bad[k] for k in ("eq", "req", "ne", "rne", "inn", "rinn", "sw", "rsw", "lege", "feq")}),
+        vlib.violation(ctx, "equality observation rejected by AnkoEq for a=%s b=%s (operands %s): %s" % (describe(a), describe(b), "in variables" if bad.get("prov") != "elem" else "read from slices: la[0], lb[0]", {k: bad[k] for k in ("eq", "req", "ne", "rne", "inn", "rinn", "sw", "rsw", "lege", "feq")}),
                        {"kind": "eq", "a": a, "b": b, "obs": bad, "finding_key": finding_key(a, b, bad)})
     ctx.cov["evaluations"] += len(obs) * 10
     ctx.cov["distinct_nontrivial"] += len(obs)
@@ -121,7 +121,7 @@ def replay(ctx, path):
     vlib.write_ndjson(poolp, [p["a"], p["b"]])
     obsp = os.path.join(ctx.work, "eq_obs.ndjson")
     vlib.run_cmd(ctx, [binp, poolp, obsp])
-    obs = [o for o in vlib.read_ndjson(obsp) if o["i"] == 1 and o["j"] == 2]
+    obs = [o for o in vlib.read_ndjson(obsp) if o["i"] == 1 and o["j"] == 2 and o.get("prov", "plain") == p["obs"].get("prov", "plain")]
     print(json.dumps(obs))
     vlib.write_ndjson(obsp, obs)
     rej, total, r = vlib.validate_lines(ctx, "Trace_AnkoEq", "Trace_AnkoEq.cfg", [poolp, obsp])
